@@ -83,6 +83,9 @@ type c19Env struct {
 	invitation *protocoltypes.Group
 	shareable  *protocoltypes.ShareableContact
 	msgCID     []byte
+	// identifiers of real log entries (oldest and newest metadata / message entry of the account group and of the
+	// multi-member group while they are open): listing requests are also issued with real bounds, in both orders
+	eventIDs [][]byte
 }
 
 func newC19Env(t testing.TB, seed int64, ops []svcOp) *c19Env {
@@ -106,8 +109,10 @@ func newC19Env(t testing.TB, seed int64, ops []svcOp) *c19Env {
 			if err == nil {
 				e.mmPK = r.GroupPk
 				_, _ = tp.Service.ActivateGroup(ctx, &protocoltypes.ActivateGroup_Request{GroupPk: e.mmPK})
-				if sr, err := tp.Service.AppMessageSend(ctx, &protocoltypes.AppMessageSend_Request{GroupPk: e.mmPK, Payload: []byte("hello")}); err == nil {
-					e.msgCID = sr.Cid
+				for i := 0; i < 3; i++ {
+					if sr, err := tp.Service.AppMessageSend(ctx, &protocoltypes.AppMessageSend_Request{GroupPk: e.mmPK, Payload: []byte("hello")}); err == nil {
+						e.msgCID = sr.Cid
+					}
 				}
 			}
 		case "deactivate-group":
@@ -125,6 +130,25 @@ func newC19Env(t testing.TB, seed int64, ops []svcOp) *c19Env {
 		case "deactivate-contact-group":
 			if e.contactGPK != nil {
 				_, _ = tp.Service.DeactivateGroup(ctx, &protocoltypes.DeactivateGroup_Request{GroupPk: e.contactGPK})
+			}
+		}
+	}
+	for _, pk := range [][]byte{e.accountPK, e.mmPK} {
+		if pk == nil {
+			continue
+		}
+		gc, err := tp.Service.(*service).GetContextGroupForID(pk)
+		if err != nil || gc == nil {
+			continue
+		}
+		if ms := gc.MetadataStore(); ms != nil {
+			if es := ms.OpLog().Values().Slice(); len(es) > 0 {
+				e.eventIDs = append(e.eventIDs, es[0].GetHash().Bytes(), es[len(es)-1].GetHash().Bytes())
+			}
+		}
+		if ms := gc.MessageStore(); ms != nil {
+			if es := ms.OpLog().Values().Slice(); len(es) > 0 {
+				e.eventIDs = append(e.eventIDs, es[0].GetHash().Bytes(), es[len(es)-1].GetHash().Bytes())
 			}
 		}
 	}
@@ -165,6 +189,9 @@ func (e *c19Env) fieldValues(seed int64, f protoreflect.FieldDescriptor) []proto
 			if e.contactGPK != nil {
 				vals = append(vals, e.contactGPK)
 			}
+		}
+		if strings.HasSuffix(name, "_id") {
+			vals = append(vals, e.eventIDs...)
 		}
 		vals = append(vals, known)
 		var out []protoreflect.Value
